@@ -160,7 +160,9 @@ def extra_obligations(w, tier, seed):
                     for t in tg:
                         if isinstance(t, ast.Attribute) and t.attr == 'dml_exprs':
                             val = getattr(n, 'value', None)
-                            if not (isinstance(n, (ast.Assign, ast.AnnAssign)) and isinstance(val, ast.List) and not val.elts) and not (rel.endswith('ir/ast.py')):
+                            init_ = (isinstance(n, (ast.Assign, ast.AnnAssign)) and isinstance(val, ast.List) and not val.elts
+                                     and isinstance(t.value, ast.Name) and t.value.id == 'self' and owner(n.lineno) == '__init__')      # `self.dml_exprs = []` in a constructor
+                            if not init_ and not (rel.endswith('ir/ast.py')):
                                 writers.append('%s:%d' % (rel, n.lineno))
                 if isinstance(n, ast.Call) and isinstance(n.func, ast.Attribute) and ast.unparse(n.func.value).endswith('dml_exprs') and n.func.attr not in ('append',):
                     writers.append('%s:%d .%s()' % (rel, n.lineno, n.func.attr))
@@ -214,4 +216,46 @@ def extra_obligations(w, tier, seed):
     bits = [c[k] for k in ('MODIFICATIONS', 'SESSION_CONFIG', 'TRANSACTION', 'DDL', 'PERSISTENT_CONFIG')]
     out.append(_ob('enum/Capability/bits-distinct', 'the five capability flags are distinct single bits', len(set(bits)) == 5 and all(b > 0 and b & (b - 1) == 0 for b in bits), where=str(bits), kind='lemma'))
     out.append(_ob('enum/Capability/WRITE', 'WRITE == MODIFICATIONS | DDL | PERSISTENT_CONFIG', c['WRITE'] == c['MODIFICATIONS'] | c['DDL'] | c['PERSISTENT_CONFIG'], where=hex(c['WRITE']), kind='lemma'))
+    # 8. migration-control commands: the dispatcher derives the flags of a MigrationCommand from the TYPE of the query object it gets back (MigrationControlQuery ->
+    #    DDL [| TRANSACTION], DDLQuery -> DDL, anything else -> no capability, meant for DESCRIBE CURRENT MIGRATION only).  So every helper of
+    #    ddl.compile_dispatch_ql_migration other than _describe_current_migration must return one of those two types on every path.
+    DDL_PY = 'edb/server/compiler/ddl.py'
+    disp, _ = repo.find_def(DDL_PY, 'compile_dispatch_ql_migration')
+    helpers = {}
+    for n in ast.walk(disp):
+        if isinstance(n, ast.match_case) and isinstance(n.pattern, ast.MatchClass):
+            cls = ast.unparse(n.pattern.cls)
+            for st in n.body:
+                if isinstance(st, ast.Return) and isinstance(st.value, ast.Call) and isinstance(st.value.func, ast.Name): helpers[cls] = st.value.func.id
+    OKCALLS = ('dbstate.MigrationControlQuery', 'dbstate.DDLQuery', 'compile_and_apply_ddl_stmt')
+    bad = []; unsure = []
+    for cls, hname in sorted(helpers.items()):
+        if cls == 'qlast.DescribeCurrentMigration' or hname == 'compile_and_apply_ddl_stmt': continue
+        try: fn, _ = repo.find_def(DDL_PY, hname)
+        except Exception: unsure.append('%s: helper %s not found' % (cls, hname)); continue
+        assigns = {}
+        for n in ast.walk(fn):
+            if isinstance(n, ast.Assign) and len(n.targets) == 1 and isinstance(n.targets[0], ast.Name): assigns.setdefault(n.targets[0].id, []).append(n.value)
+        def kind(e, depth=0):
+            if isinstance(e, ast.Call):
+                f = ast.unparse(e.func)
+                if f in OKCALLS: return 'ok'
+                if f.endswith('_compile_ql_transaction') or f.endswith('TxControlQuery') or f.endswith('.Query') or f.endswith('SimpleQuery') or f.endswith('NullQuery'): return 'bad'
+                return 'unknown'
+            if isinstance(e, ast.Name) and depth < 3:
+                # `x = dataclasses.replace(x, ...)` keeps the type of x: neutral
+                vals = [v for v in assigns.get(e.id, []) if not (isinstance(v, ast.Call) and ast.unparse(v.func) == 'dataclasses.replace' and v.args and ast.unparse(v.args[0]) == e.id)]
+                ks = {kind(v, depth + 1) for v in vals}
+                if not ks: return 'unknown'
+                if 'bad' in ks: return 'bad'
+                return 'ok' if ks == {'ok'} else 'unknown'
+            return 'unknown'
+        for n in ast.walk(fn):
+            if isinstance(n, ast.Return):
+                k = kind(n.value) if n.value is not None else 'bad'
+                if k == 'bad': bad.append('%s line %d: returns %s' % (hname, n.lineno, ast.unparse(n.value)[:60] if n.value is not None else 'None'))
+                elif k == 'unknown': unsure.append('%s line %d: %s' % (hname, n.lineno, ast.unparse(n.value)[:60]))
+    out.append(_ob('scan/migration-helpers/return-type', 'ddl.py: every helper of compile_dispatch_ql_migration (except _describe_current_migration) returns a MigrationControlQuery or a DDLQuery on every path, '
+                   'so that the dispatcher attaches DDL (and TRANSACTION when a transaction is opened / closed)', bool(helpers) and not bad and not unsure,
+                   where='; '.join((bad + unsure)[:6]) or 'helpers: %s' % sorted(helpers.values()), undecided=(not bad)))
     return out
